@@ -152,7 +152,7 @@ def build(rnd, tier, flags):
         std = r.pick(["f2003", "f2008"])
         units, flat, g = progs.make_program(rnd, flags, f08=(std == "f2008"), max_units=1, max_stmts=3)
         picks = []
-        for _ in range(min(6, len(flat))):
+        for _ in range(min(4, len(flat))):
             st, d = flat[r.n(0, len(flat) - 1)]
             picks.append([_wrapper_for(st), gen.stmt_text(st)])
         return {"src": "", "stmts": picks, "std": std, "ignore_comments": True, "reader": "string",
@@ -222,7 +222,8 @@ def _evaluate_stmts(case):
         pre, post = WRAPPERS[wname]
         for desc, new in token_variants(text):
             _variants[0] += 1
-            o = guarded_parse(pre + new + post, std=case["std"], ignore_comments=True, want_str=True, budget=WORK_BUDGET)
+            o = guarded_parse(pre + new + post, std=case["std"], ignore_comments=True, want_str=True, budget=WORK_BUDGET,
+                              reuse_parser=True)
             if o.kind in ("tree", "syntax"):
                 continue
             if o.kind == "budget":
